@@ -62,6 +62,43 @@ def tsTaylor (ns ll a b : F) : Option F :=
 
 end ts
 
+/-! ## the call itself: looking `ns` up among the global fit parameters -/
+
+inductive TsErr where
+  | keyError        -- `pmm.get_gflp_idx(name=...)`: no floating parameter of that name
+  | indexError      -- `fitparam_values[ns_pidx]`: the array is shorter than the parameter list
+  deriving DecidableEq, Repr
+
+/-- `pmm.get_gflp_idx(name)`: position of the (first) floating parameter called `name` -/
+def gflpIdx (names : List String) (name : String) : Except TsErr Nat :=
+  match names.findIdx? (· == name) with
+  | some i => .ok i
+  | none => .error .keyError
+
+section tscall
+variable {F : Type} [Mul F] [Div F] [Neg F] [LT F] [DecidableLT F]
+  [OfNat F 0] [OfNat F 1] [OfNat F 2] [OfNat F 4]
+
+/-- `WilksTestStatistic(ns_param_name=name).__call__(pmm, log_lambda, fitparam_values)` with the names of
+the pmm's floating parameters -/
+def tsCall (names : List String) (name : String) (fp : List F) (ll : F) : Except TsErr F :=
+  match gflpIdx names name with
+  | .error e => .error e
+  | .ok i => match fp[i]? with
+    | none => .error .indexError
+    | some ns => .ok (ts ns ll)
+
+/-- the Taylor class, given `a(i)`/`b` as functions of the index it hands to the LLH ratio -/
+def tsTaylorCall (names : List String) (name : String) (fp : List F) (ll : F) (grads : List F) (b : F) :
+    Except TsErr (Option F) :=
+  match gflpIdx names name with
+  | .error e => .error e
+  | .ok i => match fp[i]?, grads[i]? with
+    | some ns, some a => .ok (tsTaylor ns ll a b)
+    | _, _ => .error .indexError
+
+end tscall
+
 /-! ## second derivative w.r.t. ns (what the Taylor variant asks the LLH ratio for) -/
 
 section grad2
